@@ -189,6 +189,12 @@ func c06Oracle(toks []c06Tok, results []string) (bool, string, string) {
 		if tok.phase == 'R' && p.row == "-" && res != "ok" && tok.fault == 0 && !tok.cbFails {
 			return false, "empty_rollback_not_suspended", fmt.Sprintf("delivery %d (%s) was refused and recorded nothing", i, tok)
 		}
+		if tok.phase == 'C' && (p.row == "suspended" || p.row == "rollbacked" || p.row == "-") && res == "ok" {
+			return false, "commit_without_try_or_after_cancel", fmt.Sprintf("delivery %d (%s): commit accepted on a branch in state %s", i, tok, p.row)
+		}
+		if tok.phase == 'R' && p.row == "committed" && res == "ok" {
+			return false, "rollback_after_confirm", fmt.Sprintf("delivery %d (%s): rollback accepted on a committed branch", i, tok)
+		}
 		if tok.phase == 'P' && p.row == "suspended" && res == "ok" {
 			return false, "try_after_suspension", fmt.Sprintf("delivery %d (%s): try accepted after a suspension", i, tok)
 		}
